@@ -829,6 +829,12 @@ func TestExhaustive(t *testing.T) {
 
 // ---------- random lists ----------
 
+// interacting: pairs of options the README documents an interaction for.
+var interacting = [][2]string{
+	{"template", "gen_deep_equal"}, {"template", "enable_nested_struct"}, {"apache_warning", "apache_adaptor"},
+	{"enable_nested_struct", "gen_deep_equal"}, {"naming_style", "ignore_initialisms"},
+}
+
 func genList(rt *rapid.T, m *docModel) []string {
 	n := rapid.IntRange(3, 12).Draw(rt, "n")
 	var names []string
@@ -866,6 +872,15 @@ func genList(rt *rapid.T, m *docModel) []string {
 				p[0], p[1] = p[1], p[0]
 			}
 			opts = append(opts, pick(p[0]), pick(p[1]))
+		case k == 3: // options the README relates to each other
+			g := rapid.SampledFrom(interacting).Draw(rt, "group")
+			if m.byName[g[0]] == nil || m.byName[g[1]] == nil {
+				continue
+			}
+			if rapid.Bool().Draw(rt, "swap") {
+				g[0], g[1] = g[1], g[0]
+			}
+			opts = append(opts, pick(g[0]), pick(g[1]))
 		case k <= 2 && len(opts) > 0: // an option already in the list, again
 			prev, _ := splitOpt(rapid.SampledFrom(opts).Draw(rt, "again"))
 			opts = append(opts, pick(prev))
@@ -926,7 +941,7 @@ func thriftgoBin() (string, error) {
 
 type binCase struct {
 	Opts     []string `json:"opts"`
-	WantFail bool     `json:"want_fail"`         // documented as invalid => non-zero exit status
+	WantFail bool     `json:"want_fail"`          // documented as invalid => non-zero exit status
 	Contains string   `json:"contains,omitempty"` // text the generated file must contain (valid lists only)
 }
 
